@@ -10,7 +10,8 @@ import (
 	"verif/engine"
 )
 
-var c06Kinds = []string{"used-field-type", "unused", "used-annotation", "used-new", "used-static-receiver", "used-catch", "used-generic-arg", "wildcard", "static-used", "static-unused", "unused-second", "used-throws"}
+var c06Kinds = []string{"used-field-type", "unused", "used-annotation", "used-new", "used-static-receiver", "used-catch", "used-generic-arg", "wildcard", "static-used", "static-unused", "unused-second", "used-throws",
+	"used-static-field", "used-method-reference", "used-nested-receiver", "used-class-literal", "used-cast", "used-instanceof", "used-extends", "used-implements", "used-parameter-type", "used-return-type", "used-local-type", "used-array-type", "used-static-constant-in-expression", "used-annotation-argument"}
 
 type c06File struct {
 	name     string
@@ -33,6 +34,8 @@ func c06Build(c *engine.C, idx int) c06File {
 	var body []string
 	classAnn := ""
 	throws := ""
+	extends := ""
+	var implements []string
 	for i := 0; i < n; i++ {
 		kind := c06Kinds[(c.Choose(len(c06Kinds), fmt.Sprintf("%simp%d", pfx, i))+i)%len(c06Kinds)]
 		if i > 0 {
@@ -72,6 +75,52 @@ func c06Build(c *engine.C, idx int) c06File {
 			body = append(body, "    void helped"+u+"() {\n        help"+u+"();\n    }")
 		case "static-unused":
 			f.optional[add("import static lib.Helpers.nope"+u+";")] = true
+		case "used-static-field":
+			add("import lib.Limits" + u + ";")
+			body = append(body, "    int limit"+u+"() {\n        return Limits"+u+".MAX;\n    }")
+		case "used-method-reference":
+			add("import lib.Fn" + u + ";")
+			body = append(body, "    private Runnable ref"+u+" = Fn"+u+"::run;")
+		case "used-nested-receiver":
+			add("import lib.Outer" + u + ";")
+			body = append(body, "    void nested"+u+"() {\n        Outer"+u+".Inner.go();\n    }")
+		case "used-class-literal":
+			add("import lib.Lit" + u + ";")
+			body = append(body, "    private Object lit"+u+" = Lit"+u+".class;")
+		case "used-cast":
+			add("import lib.Cast" + u + ";")
+			body = append(body, "    Object cast"+u+"(Object o) {\n        return (Cast"+u+") o;\n    }")
+		case "used-instanceof":
+			add("import lib.Inst" + u + ";")
+			body = append(body, "    boolean inst"+u+"(Object o) {\n        return o instanceof Inst"+u+";\n    }")
+		case "used-extends":
+			add("import lib.Base" + u + ";")
+			if extends == "" {
+				extends = "Base" + u
+			} else {
+				implements = append(implements, "Base"+u) // a class has one superclass
+			}
+		case "used-implements":
+			add("import lib.Iface" + u + ";")
+			implements = append(implements, "Iface"+u)
+		case "used-parameter-type":
+			add("import lib.Param" + u + ";")
+			body = append(body, "    void take"+u+"(Param"+u+" p) {\n    }")
+		case "used-return-type":
+			add("import lib.Ret" + u + ";")
+			body = append(body, "    Ret"+u+" give"+u+"() {\n        return null;\n    }")
+		case "used-local-type":
+			add("import lib.Loc" + u + ";")
+			body = append(body, "    void local"+u+"() {\n        Loc"+u+" v = null;\n    }")
+		case "used-array-type":
+			add("import lib.Arr" + u + ";")
+			body = append(body, "    private Arr"+u+"[] arr"+u+";")
+		case "used-static-constant-in-expression":
+			add("import static lib.Consts.K" + u + ";")
+			body = append(body, "    int sum"+u+"() {\n        return 1 + K"+u+";\n    }")
+		case "used-annotation-argument":
+			add("import lib.Mode" + u + ";")
+			body = append(body, "    @SuppressWarnings(Mode"+u+".NAME)\n    void annotated"+u+"() {\n    }")
 		case "used-throws":
 			add("import lib.Oops" + u + ";")
 			throws = "Oops" + u
@@ -87,7 +136,14 @@ func c06Build(c *engine.C, idx int) c06File {
 			add(l)
 		}
 	}
-	add("public class " + name + " {")
+	decl := "public class " + name
+	if extends != "" {
+		decl += " extends " + extends
+	}
+	if len(implements) > 0 {
+		decl += " implements " + strings.Join(implements, ", ")
+	}
+	add(decl + " {")
 	add("    private int n;")
 	for _, b := range body {
 		for _, l := range strings.Split(b, "\n") {
@@ -212,6 +268,6 @@ func init() {
 			"an unused static import may or may not be deleted (the statement speaks of single-type imports)",
 			"one import per line; references inside comments do not count",
 		},
-		Sections: []engine.Section{{Name: "directories", KQuick: 4, KThor: 5, Gen: c06Gen}},
+		Sections: []engine.Section{{Name: "directories", KQuick: 3, KThor: 4, Gen: c06Gen}},
 	})
 }
